@@ -104,6 +104,25 @@ CLAIMED["C05"] = dict(
            "position is filled from the corresponding node (semantics of arbitrary serde visitors)."),
     note=_NOTE, technique="static analysis: MIR edge-dominance (end-of-container verified before success), consumer census, sibling agreement")
 
+CLAIMED["C03"] = dict(
+    level=("Static decision of the structural clauses of C03: the merge-key predicate tests exactly {one event, plain, untagged, `<<`} "
+           "and the budget's merge-key counter tests the same triple; both merge-value expanders agree per event kind on the "
+           "outcome class (null → nothing, other scalar → merge-value error, mapping → entries, sequence → per-element expansion, "
+           "ends / consumed → merge-value error, EOF → error) and the mapping collector rejects a non-mapping and recognises nested "
+           "merges; merge expansion runs only for keys the predicate accepts and a merge entry is never delivered as a key; while "
+           "flushing merges the duplicate-key policy is bypassed and already-seen keys are skipped silently. Deliberately not "
+           "decided: the precedence order (a frozen-fragment rule) and equality with the explicitly merged mapping."),
+    note=_NOTE, technique="static analysis: predicate-table agreement, sibling outcome-class agreement and guard-dominance rules on MIR")
+CLAIMED["C04"] = dict(
+    level=("Static decision of the structural clauses of C04: both policy-dispatch sites (buffered / live) agree per policy — Error ∧ "
+           "duplicate must-pass the duplicate-key error located at the key node; FirstWins ∧ duplicate delivers nothing and, live, "
+           "skips exactly one node (buffered: consumes nothing); LastWins has no duplicate test; the fingerprint is looked up and "
+           "inserted before every delivery; the three node-skipping loops are balanced depth automata (+1 both starts, −1 both "
+           "ends, 0 scalars, enter at 1, exit at 0); KeyFingerprint derives PartialEq/Eq/Hash together and its scalar variant "
+           "carries exactly {value, tag}. Not decided: equality of fingerprints for all structurally equal nodes; result equality "
+           "with de-duplicated renderings."),
+    note=_NOTE, technique="static analysis: sibling agreement of policy dispatch, depth-automaton abstraction of skipping loops, type-table rules on MIR / ADT facts")
+
 NOT_APPLICABLE = {("C%02d" % i): _NB for i in range(1, 21) if ("C%02d" % i) not in CLAIMED}
 
 CLAIMED["C10"] = dict(
@@ -191,5 +210,24 @@ CLAIMED["C05"] = dict(
            "expect_*_start succeed only on their own event; single-document entries reject leftovers. Not decided: that every Rust "
            "position is filled from the corresponding node (semantics of arbitrary serde visitors)."),
     note=_NOTE, technique="static analysis: MIR edge-dominance (end-of-container verified before success), consumer census, sibling agreement")
+
+CLAIMED["C03"] = dict(
+    level=("Static decision of the structural clauses of C03: the merge-key predicate tests exactly {one event, plain, untagged, `<<`} "
+           "and the budget's merge-key counter tests the same triple; both merge-value expanders agree per event kind on the "
+           "outcome class (null → nothing, other scalar → merge-value error, mapping → entries, sequence → per-element expansion, "
+           "ends / consumed → merge-value error, EOF → error) and the mapping collector rejects a non-mapping and recognises nested "
+           "merges; merge expansion runs only for keys the predicate accepts and a merge entry is never delivered as a key; while "
+           "flushing merges the duplicate-key policy is bypassed and already-seen keys are skipped silently. Deliberately not "
+           "decided: the precedence order (a frozen-fragment rule) and equality with the explicitly merged mapping."),
+    note=_NOTE, technique="static analysis: predicate-table agreement, sibling outcome-class agreement and guard-dominance rules on MIR")
+CLAIMED["C04"] = dict(
+    level=("Static decision of the structural clauses of C04: both policy-dispatch sites (buffered / live) agree per policy — Error ∧ "
+           "duplicate must-pass the duplicate-key error located at the key node; FirstWins ∧ duplicate delivers nothing and, live, "
+           "skips exactly one node (buffered: consumes nothing); LastWins has no duplicate test; the fingerprint is looked up and "
+           "inserted before every delivery; the three node-skipping loops are balanced depth automata (+1 both starts, −1 both "
+           "ends, 0 scalars, enter at 1, exit at 0); KeyFingerprint derives PartialEq/Eq/Hash together and its scalar variant "
+           "carries exactly {value, tag}. Not decided: equality of fingerprints for all structurally equal nodes; result equality "
+           "with de-duplicated renderings."),
+    note=_NOTE, technique="static analysis: sibling agreement of policy dispatch, depth-automaton abstraction of skipping loops, type-table rules on MIR / ADT facts")
 
 NOT_APPLICABLE = {("C%02d" % i): _NB for i in range(1, 21) if ("C%02d" % i) not in CLAIMED}
